@@ -180,7 +180,12 @@ def _line_infinite_cylinder_intersection(a, b, r, n):
     right:
         second edge of intersection segment (direction n)
     '''
-    nxa = sc.cross(n, a)
+    # n x a only depends on the component of n perpendicular to a.
+    # Projecting n first keeps the computed cross product perpendicular to a also for
+    # rays that are nearly parallel to the axis. Otherwise, the component of the
+    # rounding error of n x a along a gets multiplied by the (large) component of b
+    # along a and a ray through the center of a long cylinder appears to miss it.
+    nxa = sc.cross(n - sc.dot(n, a) * a, a)
     nxa_square = sc.dot(nxa, nxa)
     parallel_to_cylinder = nxa_square == sc.scalar(0.0, unit=nxa.unit)
     s2 = nxa_square * r**2 - sc.dot(b, nxa) ** 2
